@@ -1,7 +1,8 @@
 /-
 C12, validity of the result of a merge: the result of merging an accepted object (repeats allowed or
 not) with an accepted repeat-free object is accepted; it is repeat-free when both operands are and the
-key fields carried by the items of their keyed lists are scalars.
+key fields carried by the items of their keyed lists are canonical values (`keysCanon`; scalars are, and
+so is every key field of a canonical operand).
 -/
 import SMD.Proofs.MergeLaws
 import SMD.Proofs.MergeNodes
@@ -376,9 +377,10 @@ theorem filterMap_identity_pairs (s : Schema) (t : ListT) :
 
 /-! ### the result of a merge is accepted -/
 
-/-- an operand that, when present, is accepted (and, when asked for, carries scalar key fields) -/
+/-- an operand that, when present, is accepted (and, when asked for, carries canonical key fields: `keysCanon`,
+implied by `keysScalar` and by `canon`) -/
 def OptOK (s : Schema) (ks d : Bool) (tr : TypeRef) (x : Option Value) : Prop :=
-  ∀ v, x = some v → Conf.conforms s d tr v = true ∧ (ks = true → keysScalar s tr v = true)
+  ∀ v, x = some v → Conf.conforms s d tr v = true ∧ (ks = true → keysCanon s tr v = true)
 
 theorem optOK_none (s : Schema) (ks d : Bool) (tr : TypeRef) : OptOK s ks d tr none := by
   intro v hv; cases hv
@@ -395,14 +397,14 @@ theorem optOK_fields (s : Schema) (ks d : Bool) (tr : TypeRef) (a : Atom) (t : M
   refine ⟨this.1, ?_⟩
   intro v hv
   cases hv
-  exact ⟨this.2, fun hk => keysScalar_map_child s tr a t _ hres ha hna (hks hk) k w hl⟩
+  exact ⟨this.2, fun hk => keysCanon_map_child s tr a t _ hres ha hna (hks hk) k w hl⟩
 
 /-- what an accepted operand says about the items of its list (indexed by the merging walker) -/
 theorem optOK_items (s : Schema) (ks d : Bool) (tr : TypeRef) (a : Atom) (t : ListT) (x : Option Value)
     (hres : s.resolve tr = some a) (ha : a.list = some t) (hna : t.rel ≠ "atomic") (hrel : t.rel = "associative")
     (hx : OptOK s ks d tr x) :
     (∀ c ∈ (asList x).getD [], (Conf.identity s t c).isSome = true ∧ OptOK s ks d t.elementType (some c) ∧
-      (ks = true → itemKeysScalar t.keys c = true)) ∧
+      (ks = true → itemKeysCanon t.keys c = true)) ∧
     (d = false → Conf.distinct ((((asList x).getD []).map (Conf.identity s t)).filterMap id) = true) := by
   cases hxl : asList x with
   | none => simp [Conf.distinct]
@@ -418,10 +420,10 @@ theorem optOK_items (s : Schema) (ks d : Bool) (tr : TypeRef) (a : Atom) (t : Li
     obtain ⟨⟨h1, h2⟩, h3⟩ := hc
     rw [conformsAll_iff] at h3
     simp only [Option.getD_some]
-    refine ⟨fun c hcm => ⟨h1 c hcm, ?_, fun hk => (keysScalar_list_items s tr a t xl hres ha hna (hks hk) c hcm).1⟩, ?_⟩
+    refine ⟨fun c hcm => ⟨h1 c hcm, ?_, fun hk => (keysCanon_list_items s tr a t xl hres ha hna (hks hk) c hcm).1⟩, ?_⟩
     · intro v hv
       cases hv
-      exact ⟨h3 c hcm, fun hk => (keysScalar_list_items s tr a t xl hres ha hna (hks hk) c hcm).2⟩
+      exact ⟨h3 c hcm, fun hk => (keysCanon_list_items s tr a t xl hres ha hna (hks hk) c hcm).2⟩
     · intro hd
       subst hd
       simpa using h2
@@ -516,7 +518,7 @@ theorem merge_conforms (s : Schema) (d : Bool) : ∀ (fuel : Nat) (lo ro : Optio
             intro q w c hcc hw v hv
             cases hv
             rcases hobsL q w hw with rfl | ⟨p, hp, _, rfl⟩
-            · exact ⟨conforms_null_of s false d _ c hcc, fun _ => keysScalar_null s _⟩
+            · exact ⟨conforms_null_of s false d _ c hcc, fun _ => keysCanon_null s _⟩
             · exact (hLi _ (hlmem p hp)).2.1 _ rfl
           -- every emitted item is accepted and has an identity
           obtain ⟨m1, _, _, _⟩ := mergeLoop_spec _ _ _ _ _ _ _ _ _ _ hloop
@@ -554,14 +556,14 @@ theorem merge_conforms (s : Schema) (d : Bool) : ∀ (fuel : Nat) (lo ro : Optio
             refine mergeLoop_distinct s t _ obsL obsR _ _ _ _ _ _ _ hloop ?_ ?_ ?_
             · intro pe x v hm hn hi
               obtain ⟨_, _, hxks⟩ := hLi x (hlmem _ hm)
-              have := merge_identity_left s t n x v pe (hlid _ hm) (hxks hks) hi
+              have := merge_identity_left_canon s t n x v pe (hlid _ hm) (hxks hks) hi
               simp only [idOf, this, Option.getD_some]
               exact PE.equals_refl _
             · intro pe rpe v hm he hi
               obtain ⟨p, hp, rfl, hget⟩ := hright pe rpe hm he
               obtain ⟨_, hpok, hpks⟩ := hRi p.2 (hrmem p hp)
               rw [hget] at hi
-              obtain ⟨po, hpo, hpe⟩ := merge_identity_right s t n (pemGet pe obsL) p.2 v p.1 (hrid p hp)
+              obtain ⟨po, hpo, hpe⟩ := merge_identity_right_canon s t n (pemGet pe obsL) p.2 v p.1 (hrid p hp)
                 ((validateV_iff s false p.2 _).2 (hpok _ rfl).1) (hpks hks) (by
                   intro w hw
                   rcases hobsL pe w hw with h | ⟨p', hp', hpe', rfl⟩
@@ -583,7 +585,7 @@ theorem merge_conforms (s : Schema) (d : Bool) : ∀ (fuel : Nat) (lo ro : Optio
 
 /-! ### the list case, packaged for the laws that follow -/
 
-/-- what the two indexes of the list case hold, for accepted repeat-free operands with scalar key fields -/
+/-- what the two indexes of the list case hold, for accepted repeat-free operands with canonical key fields -/
 structure ListFacts (s : Schema) (t : ListT) (lo ro : Option Value) (lpes obsL rpes obsR : List (PE × Value)) : Prop where
   hrel : t.rel = "associative"
   lsnd : lpes.map (·.2) = (asList lo).getD []
@@ -594,8 +596,8 @@ structure ListFacts (s : Schema) (t : ListT) (lo ro : Option Value) (lpes obsL r
   lobs : ∀ q w, pemGet q obsL = some w → w = .null ∨ ∃ p ∈ lpes, PE.equals p.1 q = true ∧ p.2 = w
   robs : ∀ q, (pemGet q obsR).isSome = true → ∃ p ∈ rpes, PE.equals p.1 q = true
   rdist : rpes.Pairwise (fun a b => NE a.1 b.1)
-  litem : ∀ c ∈ (asList lo).getD [], OptOK s true false t.elementType (some c) ∧ itemKeysScalar t.keys c = true
-  ritem : ∀ c ∈ (asList ro).getD [], OptOK s true false t.elementType (some c) ∧ itemKeysScalar t.keys c = true
+  litem : ∀ c ∈ (asList lo).getD [], OptOK s true false t.elementType (some c) ∧ itemKeysCanon t.keys c = true
+  ritem : ∀ c ∈ (asList ro).getD [], OptOK s true false t.elementType (some c) ∧ itemKeysCanon t.keys c = true
   ldist : lpes.Pairwise (fun a b => NE a.1 b.1)
 
 theorem listFacts (s : Schema) (tr : TypeRef) (a : Atom) (t : ListT) (lo ro : Option Value)
@@ -667,20 +669,20 @@ theorem ListFacts.obsL_ok (F : ListFacts s t lo ro lpes obsL rpes obsR) (c : Val
     OptOK s true false t.elementType (pemGet q obsL) := by
   intro w hw
   rcases F.lobs q w hw with rfl | ⟨p, hp, _, rfl⟩
-  · exact ⟨conforms_null_of s false false _ c hc, fun _ => keysScalar_null s _⟩
+  · exact ⟨conforms_null_of s false false _ c hc, fun _ => keysCanon_null s _⟩
   · exact (F.litem _ (F.lmem hp)).1 _ rfl
 
 theorem ListFacts.id_left (F : ListFacts s t lo ro lpes obsL rpes obsR) (n : Nat) {pe : PE} {x v : Value}
     (hm : (pe, x) ∈ lpes) (hi : mergeNode s n (some x) none t.elementType = .ok (some v)) :
     Conf.identity s t v = some pe :=
-  merge_identity_left s t n x v pe (F.lid _ hm) (F.litem _ (F.lmem hm)).2 hi
+  merge_identity_left_canon s t n x v pe (F.lid _ hm) (F.litem _ (F.lmem hm)).2 hi
 
 theorem ListFacts.id_right (F : ListFacts s t lo ro lpes obsL rpes obsR) (n : Nat) {pe : PE} {p : PE × Value}
     {v : Value} (hp : p ∈ rpes) (he : PE.equals pe p.1 = true)
     (hi : mergeNode s n (pemGet pe obsL) (some p.2) t.elementType = .ok (some v)) :
     ∃ po, Conf.identity s t v = some po ∧ PE.equals po p.1 = true := by
   obtain ⟨hpok, hpks⟩ := F.ritem _ (F.rmem hp)
-  refine merge_identity_right s t n (pemGet pe obsL) p.2 v p.1 (F.rid p hp)
+  refine merge_identity_right_canon s t n (pemGet pe obsL) p.2 v p.1 (F.rid p hp)
     ((validateV_iff s false p.2 _).2 (hpok _ rfl).1) hpks ?_ hi
   intro w hw
   rcases F.lobs pe w hw with h | ⟨p', hp', hpe', rfl⟩
